@@ -93,6 +93,9 @@ class SymExec:
         if isinstance(v, int):
             return sp.Integer(v)
         if isinstance(v, float):
+            import math
+            if abs(v - math.pi) < 1e-12:
+                return sp.pi
             return sp.nsimplify(v, rational=True) if v == v and abs(v) != float('inf') else sp.Float(v)
         if v is None:
             return sp.Symbol('None')
@@ -278,6 +281,13 @@ class SymExec:
         out = []
         self._block(fdef.body, env, [], out)
         return out
+
+    def run_env(self, fdef, env=None):
+        """(final environment on fall-through or None, list of return Cases)."""
+        env = dict(env or {})
+        out = []
+        final = self._block(fdef.body, env, [], out)
+        return final, out
 
     def _block(self, stmts, env, conds, out):
         """Execute stmts; returns env if control falls through, else None."""
